@@ -234,6 +234,13 @@ fn is_stream(fd: i32) -> bool {
     unsafe { libc::lseek(fd, 0, libc::SEEK_CUR) == -1 && errno() == libc::ESPIPE }
 }
 
+fn is_dgram(fd: i32) -> bool {
+    let mut ty: libc::c_int = 0;
+    let mut len = std::mem::size_of::<libc::c_int>() as libc::socklen_t;
+    let r = unsafe { libc::getsockopt(fd, libc::SOL_SOCKET, libc::SO_TYPE, &mut ty as *mut _ as *mut libc::c_void, &mut len) };
+    r == 0 && ty == libc::SOCK_DGRAM
+}
+
 /// A byte stream whose transfers the kernel may cut short (pipes, stream sockets, ttys). A datagram is
 /// sent and received whole.
 fn may_be_short(fd: i32) -> bool {
@@ -261,6 +268,9 @@ pub struct Ctx<'a> {
     pub digest: u64,
     /// memory ranges the program says it currently holds as pool buffers (C07): (addr, len)
     pub held: &'a [(usize, usize, u64)],
+    /// rates (x/64) of losing / duplicating a datagram sent through sendmsg
+    pub udp_loss: u32,
+    pub udp_dup: u32,
 }
 
 impl Ctx<'_> {
@@ -378,6 +388,32 @@ impl KOp {
             OP_READV | OP_WRITEV => self.do_rwv(cx),
             OP_RECVMSG => self.do_recvmsg(cx),
             OP_SENDMSG | OP_SENDMSG_ZC => {
+                // the network between two datagram sockets: a datagram may be lost or duplicated on the way
+                if cx.udp_loss + cx.udp_dup > 0 && is_dgram(fd) {
+                    let m = unsafe { &*(self.addr as *const libc::msghdr) };
+                    let total: usize = (0..m.msg_iovlen).map(|i| unsafe { (*m.msg_iov.add(i)).iov_len }).sum();
+                    if crate::flip("k.udp.loss", cx.udp_loss) {
+                        crate::fault("udp-datagram-lost");
+                        if self.opcode == OP_SENDMSG_ZC {
+                            self.zc_notif_owed = true;
+                            return Outcome::More(total as i32, 0);
+                        }
+                        return Outcome::Done(total as i32, 0);
+                    }
+                    if crate::flip("k.udp.dup", cx.udp_dup) {
+                        crate::fault("udp-datagram-duplicated");
+                        unsafe { libc::sendmsg(fd, self.addr as *const libc::msghdr, self.opflags as i32 | libc::MSG_DONTWAIT | libc::MSG_NOSIGNAL) };
+                    }
+                }
+                if debug_pkt() {
+                    let m = unsafe { &*(self.addr as *const libc::msghdr) };
+                    let mut bytes = Vec::new();
+                    for i in 0..m.msg_iovlen {
+                        let v = unsafe { *m.msg_iov.add(i) };
+                        bytes.extend_from_slice(unsafe { std::slice::from_raw_parts(v.iov_base as *const u8, v.iov_len) });
+                    }
+                    crate::klog(|| format!("kernel:   packet #{} {} bytes: {:02x?} control {}", self.seq, bytes.len(), &bytes[..bytes.len().min(14)], m.msg_controllen));
+                }
                 let r = ret(unsafe { libc::sendmsg(fd, self.addr as *const libc::msghdr, self.opflags as i32 | libc::MSG_DONTWAIT | libc::MSG_NOSIGNAL) });
                 if r == -libc::EAGAIN {
                     return Outcome::NotReady;
@@ -701,4 +737,10 @@ impl KOp {
         }
         Outcome::Done(total, flags)
     }
+}
+
+/// `VERIF_DEBUG_PKT=1`: log the head of every datagram sent (diagnosis of divergent runs).
+fn debug_pkt() -> bool {
+    static ON: std::sync::OnceLock<bool> = std::sync::OnceLock::new();
+    *ON.get_or_init(|| std::env::var_os("VERIF_DEBUG_PKT").is_some())
 }
